@@ -22,6 +22,13 @@ def neutral_line(rng, sy):
     for _ in range(20):
         body = directed_comment_body(rng, sy) if rng.random() < 0.45 else rand_text(rng, sy, rng.randint(0, 6), hostile=True)
         r = rng.random()
+        if rng.random() < 0.08:
+            # text glued to the prefix that some languages give another meaning (attributes, shebangs, doc markers)
+            body = rng.choice(["[1] note", "[todo: x]", "![x]", "!/bin/sh", "(x)", "{x}", "<x>", "@x", ":x", "=x", "+x", "~", "%", "$x", "&x", "|x", "?x"]) + body
+        if rng.random() < 0.05:
+            # characters that other tools treat as line breaks but str::lines does not: they stay inside the comment
+            k = rng.randint(0, len(body))
+            body = body[:k] + rng.choice(["\u2028", "\u2029", "\u0085", "\r", "\x0b", "\x0c", "\u2028x\u2029"]) + "x" + body[k:]
         if r < 0.015:
             # a very long comment (inline source maps, licence banners on one line): still a comment
             body = (body + " data:application/json;base64," + "QUJD" * rng.choice([700, 2100, 2048, 4100, 20000]))
@@ -37,15 +44,29 @@ def neutral_line(rng, sy):
             continue
         if any(m[4] == 1 for m in sy.multi) and re.match(r"--\[=*\[", t):
             continue
-        if "\n" in line or "\r" in line:
+        if "\n" in line or line.endswith("\r"):
             continue
         return line
     return rng.choice(sy.single)
 
 
+GLUED = ["[1] note", "[todo: x]", "![x]", "!/bin/sh", "(x)", "{x}", "<x>", "@x", ":x", "=x", "+x", "~", "%", "$x", "&x", "|x", "?x", "*", "-", "#", "/", "\\"]
+
+
 def gen_cases(ctx, langs, n):
     rng = ctx.rng
     cases = []
+    # directed: every language x every line-comment prefix x text glued to the prefix, inserted into a tiny code file
+    for sy in langs:
+        for pre in sy.single:
+            for g in (GLUED if ctx.tier != "quick" else GLUED[:4] + rng.sample(GLUED[4:], 5)):
+                line = pre + g
+                t = line.strip()
+                if any(t.startswith(m[0]) for m in sy.multi if m[4] == 0 and m[0]):
+                    continue
+                if any(m[4] == 1 for m in sy.multi) and re.match(r"--\[=*\[", t):
+                    continue
+                cases.append({"sy": sy, "L": ["x = 1", "y = 2"], "i": rng.randint(0, 2), "nl": line, "tag": "directed-glue"})
     for _ in range(n):
         sy = weighted_lang(rng, langs)
         nl = rng.randint(0, 8)
